@@ -166,6 +166,8 @@ pub enum Bin {
 pub struct Run {
     pub bin: Bin,
     pub args: Vec<String>,
+    /// Replaces the LAST argument by these raw bytes (a path that is not valid UTF-8).
+    pub raw_last_arg: Option<std::ffi::OsString>,
     /// None: stdin is /dev/null. Some(bytes, piece_seed): fed through a pipe; piece_seed
     /// 0 writes everything at once, otherwise random piece sizes with small pauses.
     pub stdin: Option<(Vec<u8>, u64)>,
@@ -202,6 +204,7 @@ impl Run {
         Run {
             bin: Bin::Dev,
             args,
+            raw_last_arg: None,
             stdin: None,
             watch: vec![],
             fault: None,
@@ -288,7 +291,15 @@ pub fn run(r: &Run) -> Outcome {
         c.arg(&exe);
         c
     };
-    cmd.args(&r.args);
+    match &r.raw_last_arg {
+        Some(raw) if !r.args.is_empty() => {
+            cmd.args(&r.args[..r.args.len() - 1]);
+            cmd.arg(raw);
+        }
+        _ => {
+            cmd.args(&r.args);
+        }
+    }
     cmd.env_clear();
     cmd.env("PATH", "/usr/bin:/bin");
     cmd.env("RUST_BACKTRACE", "0");
